@@ -267,10 +267,10 @@ pub enum Ty {
 }
 #[derive(Clone, Debug)]
 pub struct Fld {
-    name: &'static str,
-    ty: Ty,
+    pub name: &'static str,
+    pub ty: Ty,
     /// (the default as published in the schema, the typed Rust default)
-    default: Option<(Xv, Tv)>,
+    pub default: Option<(Xv, Tv)>,
 }
 
 /// values of documents / variables / defaults
@@ -286,28 +286,28 @@ pub enum Xv {
     Var(String),
 }
 
-fn opt(t: Ty) -> Ty {
+pub fn opt(t: Ty) -> Ty {
     Ty::Opt(Box::new(t))
 }
-fn vec_(t: Ty) -> Ty {
+pub fn vec_(t: Ty) -> Ty {
     Ty::Vec(Box::new(t))
 }
-fn maybe(t: Ty) -> Ty {
+pub fn maybe(t: Ty) -> Ty {
     Ty::Maybe(Box::new(t))
 }
-fn fld(name: &'static str, ty: Ty) -> Fld {
+pub fn fld(name: &'static str, ty: Ty) -> Fld {
     Fld { name, ty, default: None }
 }
-fn fldd(name: &'static str, ty: Ty, d: Xv, t: Tv) -> Fld {
+pub fn fldd(name: &'static str, ty: Ty, d: Xv, t: Tv) -> Fld {
     Fld { name, ty, default: Some((d, t)) }
 }
-fn color() -> Ty {
+pub fn color() -> Ty {
     Ty::Enum("Color", vec!["RED", "GREEN", "BLUE"])
 }
-fn nested() -> Ty {
+pub fn nested() -> Ty {
     Ty::Obj("Nested", vec![fld("p", Ty::Int), fldd("q", Ty::Int, Xv::Int(9), Tv::Int(9)), fld("r", opt(Ty::Str))])
 }
-fn inp() -> Ty {
+pub fn inp() -> Ty {
     let nd_c = Xv::Obj(vec![("p".into(), Xv::Int(1)), ("q".into(), Xv::Int(2)), ("r".into(), Xv::Null)]);
     let nd_t = Tv::Obj(vec![("p".into(), Tv::Int(1)), ("q".into(), Tv::Int(2)), ("r".into(), Tv::Null)]);
     Ty::Obj(
@@ -324,18 +324,18 @@ fn inp() -> Ty {
         ],
     )
 }
-fn inp2() -> Ty {
+pub fn inp2() -> Ty {
     Ty::Obj("Inp2", vec![fld("l", vec_(opt(Ty::Int))), fld("k", opt(Ty::Int))])
 }
-fn one() -> Ty {
+pub fn one() -> Ty {
     Ty::One("One", vec![fld("i", Ty::Int), fld("s", Ty::Str), fld("o", nested()), fld("l", vec_(opt(Ty::Int))), fld("e", color())])
 }
 
 impl Ty {
-    fn nullable(&self) -> bool {
+    pub fn nullable(&self) -> bool {
         matches!(self, Ty::Opt(_) | Ty::Maybe(_))
     }
-    fn gql_inner(&self) -> String {
+    pub fn gql_inner(&self) -> String {
         match self {
             Ty::Int => "Int".into(),
             Ty::Str => "String".into(),
@@ -345,10 +345,10 @@ impl Ty {
             Ty::Opt(t) | Ty::Maybe(t) => t.gql_inner(),
         }
     }
-    fn gql(&self) -> String {
+    pub fn gql(&self) -> String {
         if self.nullable() { self.gql_inner() } else { format!("{}!", self.gql_inner()) }
     }
-    fn strip(&self) -> &Ty {
+    pub fn strip(&self) -> &Ty {
         match self {
             Ty::Opt(t) | Ty::Maybe(t) => t.strip(),
             t => t,
@@ -356,9 +356,9 @@ impl Ty {
     }
 }
 
-type Sig = Vec<Fld>;
+pub type Sig = Vec<Fld>;
 
-fn sigs() -> Vec<(&'static str, Sig)> {
+pub fn sigs() -> Vec<(&'static str, Sig)> {
     let a = |t: Ty| vec![fld("a", t)];
     let r_obj = Xv::Obj(vec![("p".into(), Xv::Int(4)), ("q".into(), Xv::Int(5)), ("r".into(), Xv::Str("r".into()))]);
     let r_tv = Tv::Obj(vec![("p".into(), Tv::Int(4)), ("q".into(), Tv::Int(5)), ("r".into(), Tv::Str("r".into()))]);
@@ -397,7 +397,7 @@ fn sigs() -> Vec<(&'static str, Sig)> {
 }
 
 // ------------------------------------------------------------- printers ---
-fn lit_text(v: &Xv) -> String {
+pub fn lit_text(v: &Xv) -> String {
     match v {
         Xv::Null => "null".into(),
         Xv::Int(z) => z.to_string(),
@@ -409,7 +409,7 @@ fn lit_text(v: &Xv) -> String {
         Xv::Obj(kv) => format!("{{{}}}", kv.iter().map(|(k, v)| format!("{k}: {}", lit_text(v))).collect::<Vec<_>>().join(", ")),
     }
 }
-fn to_json(v: &Xv) -> serde_json::Value {
+pub fn to_json(v: &Xv) -> serde_json::Value {
     match v {
         Xv::Null | Xv::Var(_) => serde_json::Value::Null,
         Xv::Int(z) => serde_json::json!(z),
@@ -423,7 +423,7 @@ fn num_i64(n: &async_graphql_value::Number) -> Option<i64> {
     n.as_i64()
 }
 /// document literal -> Gallina [ival]; None when the value uses a construct outside the model (floats, binary)
-fn g_ival(it: &mut Interner, v: &QValue) -> Option<String> {
+pub fn g_ival(it: &mut Interner, v: &QValue) -> Option<String> {
     Some(match v {
         QValue::Variable(n) => format!("(IVar {})", it.n(n)),
         QValue::Null => "INull".into(),
@@ -449,7 +449,7 @@ fn g_ival(it: &mut Interner, v: &QValue) -> Option<String> {
     })
 }
 /// const value -> Gallina [xv]; `json` marks strings that arrived as JSON variable values
-fn g_xv_const(it: &mut Interner, v: &ConstValue, json: bool) -> Option<String> {
+pub fn g_xv_const(it: &mut Interner, v: &ConstValue, json: bool) -> Option<String> {
     Some(match v {
         ConstValue::Null => "XNull".into(),
         ConstValue::Number(n) => format!("(XInt {})", g_z(num_i64(n)? as i128)),
@@ -473,7 +473,7 @@ fn g_xv_const(it: &mut Interner, v: &ConstValue, json: bool) -> Option<String> {
         }
     })
 }
-fn g_xv(it: &mut Interner, v: &Xv, json: bool) -> String {
+pub fn g_xv(it: &mut Interner, v: &Xv, json: bool) -> String {
     match v {
         Xv::Null | Xv::Var(_) => "XNull".into(),
         Xv::Int(z) => format!("(XInt {})", g_z(*z as i128)),
@@ -484,7 +484,7 @@ fn g_xv(it: &mut Interner, v: &Xv, json: bool) -> String {
         Xv::Obj(kv) => format!("(XObj {})", g_list(kv.iter(), |(k, x)| format!("({}, {})", it.n(k), g_xv(it, x, json)))),
     }
 }
-fn g_tv(it: &mut Interner, v: &Tv) -> String {
+pub fn g_tv(it: &mut Interner, v: &Tv) -> String {
     match v {
         Tv::Null => "TNull".into(),
         Tv::Undef => "TUndef".into(),
@@ -496,7 +496,7 @@ fn g_tv(it: &mut Interner, v: &Tv) -> String {
         Tv::Obj(kv) => format!("(TObj {})", g_list(kv.iter(), |(k, x)| format!("({}, {})", it.n(k), g_tv(it, x)))),
     }
 }
-fn g_flds(it: &mut Interner, fs: &[Fld]) -> String {
+pub fn g_flds(it: &mut Interner, fs: &[Fld]) -> String {
     match fs.split_first() {
         None => "FNil".into(),
         Some((f, rest)) => {
@@ -507,7 +507,7 @@ fn g_flds(it: &mut Interner, fs: &[Fld]) -> String {
         }
     }
 }
-fn g_ty(it: &mut Interner, t: &Ty) -> String {
+pub fn g_ty(it: &mut Interner, t: &Ty) -> String {
     match t {
         Ty::Int => "RInt".into(),
         Ty::Str => "RStr".into(),
@@ -522,14 +522,14 @@ fn g_ty(it: &mut Interner, t: &Ty) -> String {
 }
 
 /// a GraphQL type text over the named types of this schema -> descriptor (variables are never MaybeUndefined)
-fn parse_ty(s: &str) -> Option<Ty> {
+pub fn parse_ty(s: &str) -> Option<Ty> {
     let s = s.trim();
     if let Some(inner) = s.strip_suffix('!') {
         return parse_ty_nn(inner);
     }
     Some(opt(parse_ty_nn(s)?))
 }
-fn parse_ty_nn(s: &str) -> Option<Ty> {
+pub fn parse_ty_nn(s: &str) -> Option<Ty> {
     if let Some(inner) = s.strip_prefix('[') {
         let inner = inner.strip_suffix(']')?;
         return Some(vec_(parse_ty(inner)?));
@@ -548,7 +548,7 @@ fn parse_ty_nn(s: &str) -> Option<Ty> {
 }
 
 // ------------------------------------------------- descriptor vs registry ---
-fn check_descriptors(sdl: &str) -> Result<(), String> {
+pub fn check_descriptors(sdl: &str) -> Result<(), String> {
     let dflt = |f: &Fld| match &f.default {
         Some((c, _)) => format!(" = {}", lit_text(c)),
         None => String::new(),
@@ -735,14 +735,14 @@ impl Gen {
     }
 }
 
-struct Case {
-    field: String,
-    doc: String,
-    vars: serde_json::Value,
-    strict: bool,
+pub struct Case {
+    pub field: String,
+    pub doc: String,
+    pub vars: serde_json::Value,
+    pub strict: bool,
 }
 
-fn gen_case(r: &mut Rng, all: &[(&'static str, Sig)]) -> Case {
+pub fn gen_case(r: &mut Rng, all: &[(&'static str, Sig)]) -> Case {
     let (fname, sig) = r.pick(all).clone();
     let p_bad = *r.pick(&[0u64, 0, 40, 90, 200]);
     let mut g = Gen { r: r.fork(), vars: vec![], allow_vars: true, json: false, p_bad };
@@ -778,7 +778,7 @@ fn gen_case(r: &mut Rng, all: &[(&'static str, Sig)]) -> Case {
     Case { field: fname.to_string(), doc: format!("{head}{{ {call} }}"), vars: serde_json::Value::Object(vars), strict: r.chance(1, 2) }
 }
 
-fn corpus() -> Vec<Case> {
+pub fn corpus() -> Vec<Case> {
     let mut v = vec![];
     let mut both = |field: &str, doc: &str, vars: &str| {
         for strict in [true, false] {
@@ -935,8 +935,64 @@ fn run<E: Executor>(schema: &E, c: &Case) -> Obs {
     if e.path.is_empty() { Obs::Rejected(e.message.clone()) } else { Obs::FieldErr(e.message.clone()) }
 }
 
-fn jstr(s: &str) -> String {
+pub fn jstr(s: &str) -> String {
     serde_json::to_string(s).unwrap()
+}
+
+/// The model's view of a case, read back from the real parser's AST of the document text.
+pub struct CaseInputs {
+    pub gargs: String,
+    pub gdefs: String,
+    pub gvars: String,
+    pub has_vars: bool,
+}
+
+/// `dynamic` = print nullable variable types as RMaybe (the dynamic flavour tells absent from null)
+pub fn case_inputs_with(it: &mut Interner, c: &Case, dynamic: bool) -> Option<CaseInputs> {
+    let doc = async_graphql::parser::parse_query(&c.doc).ok()?;
+    let DocumentOperations::Single(op) = &doc.operations else {
+        return None;
+    };
+    let Some(Selection::Field(field)) = op.node.selection_set.node.items.first().map(|s| &s.node) else {
+        return None;
+    };
+    let mut gargs = vec![];
+    for (k, v) in &field.node.arguments {
+        let g = g_ival(it, &v.node)?;
+        gargs.push(format!("({}, {})", it.n(&k.node), g));
+    }
+    let mut gdefs = vec![];
+    for vd in &op.node.variable_definitions {
+        let ty = parse_ty(&vd.node.var_type.node.to_string())?;
+        let ty = if dynamic { to_dynamic(&ty) } else { ty };
+        let d = match &vd.node.default_value {
+            None => "None".to_string(),
+            Some(d) => format!("(Some {})", g_xv_const(it, &d.node, false)?),
+        };
+        gdefs.push(format!("({}, {}, {})", it.n(&vd.node.name.node), g_ty(it, &ty), d));
+    }
+    let mut gvars = vec![];
+    let variables = Variables::from_json(c.vars.clone());
+    for (k, v) in variables.iter() {
+        let g = g_xv_const(it, v, true)?;
+        gvars.push(format!("({}, {})", it.n(k), g));
+    }
+    Some(CaseInputs { gargs: gargs.join("; "), gdefs: gdefs.join("; "), gvars: gvars.join("; "), has_vars: !op.node.variable_definitions.is_empty() })
+}
+pub fn case_inputs(it: &mut Interner, c: &Case) -> Option<CaseInputs> {
+    case_inputs_with(it, c, false)
+}
+
+/// the dynamic flavour distinguishes an absent value from null everywhere: Option -> MaybeUndefined
+pub fn to_dynamic(t: &Ty) -> Ty {
+    let f = |fs: &Vec<Fld>| fs.iter().map(|f| Fld { name: f.name, ty: to_dynamic(&f.ty), default: f.default.clone() }).collect::<Vec<_>>();
+    match t {
+        Ty::Opt(i) | Ty::Maybe(i) => maybe(to_dynamic(i)),
+        Ty::Vec(i) => vec_(to_dynamic(i)),
+        Ty::Obj(n, fs) => Ty::Obj(n, f(fs)),
+        Ty::One(n, fs) => Ty::One(n, f(fs)),
+        t => t.clone(),
+    }
 }
 
 fn main() {
@@ -969,56 +1025,10 @@ fn main() {
             }
             o => o,
         };
-        let Ok(doc) = async_graphql::parser::parse_query(&c.doc) else {
+        let Some(inp) = case_inputs(&mut it, c) else {
             skipped += 1;
             continue;
         };
-        let DocumentOperations::Single(op) = &doc.operations else {
-            skipped += 1;
-            continue;
-        };
-        let Some(Selection::Field(field)) = op.node.selection_set.node.items.first().map(|s| &s.node) else {
-            skipped += 1;
-            continue;
-        };
-        let mut ok = true;
-        let mut gargs = vec![];
-        for (k, v) in &field.node.arguments {
-            match g_ival(&mut it, &v.node) {
-                Some(g) => gargs.push(format!("({}, {})", it.n(&k.node), g)),
-                None => ok = false,
-            }
-        }
-        let mut gdefs = vec![];
-        for vd in &op.node.variable_definitions {
-            let Some(ty) = parse_ty(&vd.node.var_type.node.to_string()) else {
-                ok = false;
-                continue;
-            };
-            let d = match &vd.node.default_value {
-                None => "None".to_string(),
-                Some(d) => match g_xv_const(&mut it, &d.node, false) {
-                    Some(g) => format!("(Some {g})"),
-                    None => {
-                        ok = false;
-                        continue;
-                    }
-                },
-            };
-            gdefs.push(format!("({}, {}, {})", it.n(&vd.node.name.node), g_ty(&mut it, &ty), d));
-        }
-        let mut gvars = vec![];
-        let variables = Variables::from_json(c.vars.clone());
-        for (k, v) in variables.iter() {
-            match g_xv_const(&mut it, v, true) {
-                Some(g) => gvars.push(format!("({}, {})", it.n(k), g)),
-                None => ok = false,
-            }
-        }
-        if !ok {
-            skipped += 1;
-            continue;
-        }
         let (gimpl, impl_text, nontrivial) = match &obs {
             Obs::Echo(kv) => (
                 format!("(Ok {})", g_list(kv.iter(), |(k, v)| format!("({}, {})", it.n(k), g_tv(&mut it, v)))),
@@ -1026,7 +1036,7 @@ fn main() {
                 true,
             ),
             Obs::Rejected(m) => ("(Err 1)".to_string(), format!("rejected: {m}"), false),
-            Obs::FieldErr(m) => ("(Err 2)".to_string(), format!("field error: {m}"), !op.node.variable_definitions.is_empty()),
+            Obs::FieldErr(m) => ("(Err 2)".to_string(), format!("field error: {m}"), inp.has_vars),
             Obs::Odd(_) => unreachable!(),
         };
         let sig = &all.iter().find(|s| s.0 == c.field).unwrap().1;
@@ -1036,9 +1046,9 @@ fn main() {
             out,
             "CASE\t(sig_{}, [{}], [{}], [{}], {}, {})\t{{\"uses\":[{}],\"text\":{},\"impl\":{},\"nontrivial\":{}}}",
             c.field,
-            gargs.join("; "),
-            gdefs.join("; "),
-            gvars.join("; "),
+            inp.gargs,
+            inp.gdefs,
+            inp.gvars,
             g_bool(c.strict),
             gimpl,
             jstr(&format!("sig_{}", c.field)),
